@@ -20,7 +20,7 @@ def need(fx, fid):
 
 def run(ctx):
     fx = ctx.facts("default")
-    fixtures.run(ctx, ['order', 'taint', 'trunc'])
+    fixtures.run(ctx, ['order', 'taint', 'trunc', 'arithmul'])
     R = "R-ORDER"
     f = need(fx, MV + "resize_to_capacity")
     ctx.analysed_fns.add(f.id)
@@ -75,6 +75,8 @@ def run(ctx):
     for fid, (fn, ft) in sorted(res.items()):
         ctx.analysed_fns.add(fid)
         k += taint.check_sinks(ctx, fn, ft, "")
+        taint.check_arith(ctx, fn, ft, rule="R-ARITH.mul", ops=("Mul", "MulWithOverflow", "MulUnchecked"), fx=fx)
+        ctx.instance("R-ARITH.mul.guards_examined", len(taint.Guards(fn, ft).items))
     ctx.instance("loader.entries", n)
     ctx.instance("loader.closure_fns", len(res))
     ctx.floor("loader.entries", 20)
